@@ -450,6 +450,9 @@ func (s *Server) handleConnReceiver(module *Module, crd *rsyncwire.CountingReade
 		},
 		Dest: module.Path,
 		Env: &rsyncos.Env{
+			// The peer can turn on output (--progress, --info=…) which the
+			// transfer code prints to stdout; a daemon has nobody to show it to.
+			Stdout: io.Discard,
 			Stderr: s.stderr,
 		},
 		Conn:     c,
@@ -553,6 +556,9 @@ func (s *Server) handleConnSender(module *Module, crd *rsyncwire.CountingReader,
 		Conn:   c,
 		Seed:   sessionChecksumSeed,
 		Env: &rsyncos.Env{
+			// The peer can turn on output (--progress, --info=…) which the
+			// transfer code prints to stdout; a daemon has nobody to show it to.
+			Stdout: io.Discard,
 			Stderr: s.stderr,
 		},
 		Progress: progress.NewPrinter(io.Discard, time.Now),
